@@ -930,6 +930,7 @@ pub fn run(ctx: Ctx) -> ! {
         finish(ctx, vec![("replay".into(), false, acc)], 1);
     }
 
+    let (reader_checked, reader_ambiguous) = selftest_reader();
     let mut entries = c10_catalogue::entries(ctx.tier);
     // Development aid: C10_ENTRY=<substring> restricts the run to matching entries.
     if let Ok(f) = std::env::var("C10_ENTRY") {
@@ -943,7 +944,70 @@ pub fn run(ctx: Ctx) -> ! {
         acc
     });
     let named: Vec<(String, bool, EntryAcc)> = entries.iter().zip(accs).map(|(e, a)| (e.name.clone(), e.may_be_vacuous, a)).collect();
+    println!("C10 display-reader self-test: {reader_checked} printed expressions re-read, {reader_ambiguous} with more than one reading");
+    *READER_SELFTEST.lock().unwrap() = (reader_checked, reader_ambiguous);
     finish(ctx, named, n)
+}
+
+static READER_SELFTEST: std::sync::Mutex<(u64, u64)> = std::sync::Mutex::new((0, 0));
+
+/// Machinery self-check of the reader for printed symbolic dims: every tree of
+/// depth <= 2 over {-2, 1, a, b} (148k trees) and its simplified form are
+/// printed by rten and re-read; the true tree must be among the readings.
+fn selftest_reader() -> (u64, u64) {
+    use rten_shape_inference::SymExpr;
+    let leaves = [SymExpr::Value(-2), SymExpr::Value(1), SymExpr::pos_var("a"), SymExpr::pos_var("b")];
+    let mk = |op: usize, l: &SymExpr, r: &SymExpr| -> SymExpr {
+        let (l, r) = (Arc::new(l.clone()), Arc::new(r.clone()));
+        match op {
+            0 => SymExpr::Add(l, r),
+            1 => SymExpr::Sub(l, r),
+            2 => SymExpr::Mul(l, r),
+            3 => SymExpr::Div(l, r),
+            4 => SymExpr::DivCeil(l, r),
+            5 => SymExpr::Max(l, r),
+            6 => SymExpr::Min(l, r),
+            _ => SymExpr::Broadcast(l, r),
+        }
+    };
+    let mut d1: Vec<SymExpr> = leaves.to_vec();
+    for l in &leaves {
+        d1.push(SymExpr::Neg(Arc::new(l.clone())));
+    }
+    for op in 0..8 {
+        for l in &leaves {
+            for r in &leaves {
+                d1.push(mk(op, l, r));
+            }
+        }
+    }
+    let n = d1.len();
+    let results = vp_core::par::map(8 * n + 1, |i| {
+        let mut exprs: Vec<SymExpr> = Vec::new();
+        if i == 8 * n {
+            exprs.extend(d1.iter().cloned());
+            exprs.extend(d1.iter().map(|t| SymExpr::Neg(Arc::new(t.clone()))));
+        } else {
+            let (op, li) = (i / n, i % n);
+            for r in &d1 {
+                exprs.push(mk(op, &d1[li], r));
+            }
+        }
+        let simplified: Vec<SymExpr> = exprs.iter().filter_map(|e| vp_core::catch(|| e.simplify()).ok()).collect();
+        exprs.extend(simplified);
+        se::selftest_display_reader(&exprs)
+    });
+    let mut total = (0, 0);
+    for r in results {
+        match r {
+            Ok((a, b)) => {
+                total.0 += a;
+                total.1 += b;
+            }
+            Err(e) => vp_core::machinery_error(&format!("C10: {e}")),
+        }
+    }
+    total
 }
 
 fn finish(ctx: Ctx, accs: Vec<(String, bool, EntryAcc)>, n_entries: usize) -> ! {
@@ -1022,6 +1086,7 @@ fn finish(ctx: Ctx, accs: Vec<(String, bool, EntryAcc)>, n_entries: usize) -> ! 
         "totals": total.to_json(),
         "per_entry [cases, variants, executed_ok, rank+const claims, symbolic dim claims, const claims]": Json::Object(per_entry),
         "axes": c10_catalogue::axes_description(ctx.tier),
+        "display_reader_selftest": {"printed_expressions_reread": READER_SELFTEST.lock().unwrap().0, "with_more_than_one_reading": READER_SELFTEST.lock().unwrap().1, "true_tree_always_among_readings": true},
         "mask_rule": format!("all 2^n masks when a case has <= {FULL_MASK_DIMS} graph-input dims, otherwise all-fixed, all-symbolic and every single flip of both (counted in cases_with_partial_mask_set)"),
         "violating_variants_by_signature": by_sig,
         "samples": samples,
